@@ -109,6 +109,7 @@ type fsmChan struct {
 func (c *fsmChan) selfIsInitiator() bool { return c.role == roleInitPush || c.role == roleInitPull }
 
 type fsmWorld struct {
+	roleConsistent bool // the histories of this run only contain events the channel's role can receive
 	r        *RunCtx
 	self     peer.ID
 	other    peer.ID
@@ -606,6 +607,7 @@ func fsmHistory(roleConsistent bool, withReopen bool, exhaustiveDisk bool) func(
 			}
 		}
 		simrt.Sleep(time.Millisecond)
+		fw.roleConsistent = roleConsistent
 		fw.settleChecks()
 		fw.historyOracles(roleConsistent)
 		fw.diskOracles(exhaustiveDisk)
@@ -1043,6 +1045,27 @@ func (fw *fsmWorld) settleChecks() {
 			last := evs[len(evs)-1]
 			if isCleanup(last.snap.Status) && !lifecycleAfterEntry && last.life == fw.life {
 				r.Failf("C09", "cleanup-never-settles", datatransfer.Statuses[last.snap.Status], "channel %d is still %s at quiescence (entered at event %d, no further lifecycle input)", c.chid.ID, datatransfer.Statuses[last.snap.Status], entryIdx)
+			}
+		}
+		// "Closing a channel ... ends in Cancelled (or Failed for close-with-error)": once Cancel took the channel into
+		// Cancelling, whatever the peer or the transport still deliver must not take it anywhere but Cancelled - or Failed
+		// when an Error followed
+		cancelAt, errorAfter := -1, false
+		for i, e := range evs {
+			if e.life != fw.life {
+				continue
+			}
+			if e.code == datatransfer.Cancel && e.snap.Status == datatransfer.Cancelling && cancelAt < 0 {
+				cancelAt = i
+			} else if cancelAt >= 0 && (e.code == datatransfer.Error || e.code == datatransfer.Disconnected || e.code == datatransfer.SendDataError || e.code == datatransfer.ReceiveDataError || e.code == datatransfer.RequestCancelled) {
+				errorAfter = true
+			}
+		}
+		if cancelAt >= 0 && !fw.crashed && fw.roleConsistent {
+			last := evs[len(evs)-1]
+			r.Probe("close-then-more-events")
+			if fin := last.snap.Status; fin != datatransfer.Cancelled && !(errorAfter && (fin == datatransfer.Failed || fin == datatransfer.Failing)) && fin != datatransfer.Cancelling {
+				r.Failf("C09", "closed-channel-left-cancelling", datatransfer.Statuses[fin]+"|after:"+datatransfer.Events[last.code], "channel %d was closed (Cancel announced, Cancelling) and ends in %s after %s", c.chid.ID, datatransfer.Statuses[fin], datatransfer.Events[last.code])
 			}
 		}
 		// cleanup count bounds: >= entries; <= events announced while in a cleanup status (+entries)
